@@ -24,14 +24,15 @@ CONNS = ["c1", "c2", "c3"]
 def gen_scenario(rng, nops=None):
     mode = rng.choice(["v", "v", "l"])
     keep = rng.choice([0, 1])
-    lines = [f"reset mode={mode} keep={keep}"]
+    shut = 1 if rng.random() < 0.3 else 0
+    lines = [f"reset mode={mode} keep={keep} shut={shut}"]
     subd, tracked = {}, {c: {} for c in CONNS}
     ctr = [0]
     backend = {}            # key -> (version, data id)   newest the backend knows
     newest = {}             # key -> (version, data id)   newest provided by anyone (this epoch)
     hist = {k: [] for k in KEYS}   # key -> [(version, data)] provided so far (this epoch)
     epoch = "-"
-    state = {"chan": False, "cur": "-"}
+    state = {"chan": False, "cur": "-", "dropped": False}
     allow_race = rng.random() < 0.06
     blocks = rng.random() < 0.4          # scenario with parked deliveries / deferred OnTrack verdicts
 
@@ -60,6 +61,7 @@ def gen_scenario(rng, nops=None):
             if tracked[c]:
                 subd.pop(c, None)
                 tracked[c] = {}
+                state["dropped"] = True
 
     def fresh(fam=None):
         ctr[0] += 1
@@ -67,6 +69,34 @@ def gen_scenario(rng, nops=None):
 
     nops = nops or rng.randint(8, 40)
     for _ in range(nops):
+        # immediate shutdown: the channel state (and its epoch) is dropped when an untrack / unsubscribe / revoke /
+        # refused track leaves the item index empty (a removal reported by the backend does not trigger it)
+        last = lines[-1].split()
+        if shut and state["chan"] and not any(tracked[c] for c in CONNS) and \
+                (last[0] in ("rvk", "tcb") or (last[0] in ("utk", "unsub", "close", "resp", "pub", "bgpub", "rel") and state["dropped"])):
+            state["chan"], state["cur"] = False, "-"
+        state["dropped"] = False
+        if shut and mode == "v" and rng.random() < 0.12:
+            # delta subscription whose channel shuts down before the unsubscribe, then a plain resubscribe
+            cands = [c for c in CONNS if c not in subd] or []
+            if cands and not any(tracked[c] for c in CONNS):
+                c, k = rng.choice(cands), rng.choice(KEYS)
+                nv_, nd_ = newest.get(k, (0, None))
+                d1, d2 = fresh(nd_[0] if nd_ else None), None
+                d2 = fresh(d1[0])
+                lines += [f"sub {c} delta=1", f"trk {c} {k} 0", f"utk {c} {k}", f"unsub {c}", f"sub {c} delta=0", f"trk {c} {k} 0"]
+                state["chan"], state["cur"] = True, "-"
+                subd[c] = 0
+                tracked[c] = {k: 0}
+                mgr.pop(k, None)
+                maybe_flip(epoch)
+                if c in subd:
+                    lines.append(f"pub {k} {nv_ + 1} {epoch} {d1}")
+                    lines.append(f"pub {k} {nv_ + 2} {epoch} {d2}")
+                    newest[k] = (nv_ + 2, d2)
+                    hist[k] += [(nv_ + 1, d1), (nv_ + 2, d2)]
+                    mgr_see(k, nv_ + 2, d2)
+                continue
         for kk in list(mgr):
             if not any(kk in tracked[c] for c in CONNS):
                 mgr.pop(kk)          # the entry is deleted when its last subscriber leaves
@@ -93,11 +123,13 @@ def gen_scenario(rng, nops=None):
             if tracked[c]:
                 k = rng.choice(sorted(tracked[c]))
                 tracked[c].pop(k)
+                state["dropped"] = True
                 lines.append(f"utk {c} {k}")
         elif r < 0.40:
             c = rng.choice(live)
             lines.append(rng.choice(["unsub", "unsub", "close"]) + f" {c}")
             subd.pop(c)
+            state["dropped"] = bool(tracked[c])
             tracked[c] = {}
         elif r < 0.43:
             k = rng.choice(KEYS)
@@ -185,6 +217,7 @@ def gen_scenario(rng, nops=None):
                     lines.append(f"trk {c2} {k} 0")                # !keep: needsBroadcast, then the same version again
                 lines.append(f"resp {state['cur']} {k}:{v}:{d}")
             elif q < 0.8:
+                state["dropped"] = state["dropped"] or k in tracked[c]
                 tracked[c].pop(k, None)
                 lines.append(f"utk {c} {k}")
             elif q < 0.9:
@@ -311,6 +344,7 @@ def oracle(lines, outs):
     final_idx = None
     gen = {}                     # conn -> generation of its current subscription (absent = not subscribed)
     gen_ctr = [0]
+    cdelta = {}                  # conn -> the current subscription negotiated delta
     broken = set()               # (conn, key) whose held bytes are undefined after a patch that did not apply
     ptracks = []                 # deferred track requests: (conn, key, version, generation at request time)
     for i, (op, out) in enumerate(zip(lines, outs)):
@@ -325,11 +359,15 @@ def oracle(lines, outs):
         if out.startswith("harness-error") or out.startswith("bad-op") or out == "<missing>":
             return None
         conns, st = parse_out(out)
+        if prev_st == "none":
+            epoch = ""              # a dropped channel state starts again with the empty publisher epoch
+            vl_pairs = {}           # ... and with a fresh synthetic version counter
         stale_prev = False
         flip = False
         if f[0] == "sub" and not any(t.startswith("err:") for t in conns.get(f[1], [])):
             gen_ctr[0] += 1
             gen[f[1]] = gen_ctr[0]
+            cdelta[f[1]] = f[2] == "delta=1"
         elif f[0] == "trkd":
             if not any(t.startswith("err:") for t in conns.get(f[1], [])):
                 ptracks.append((f[1], f[2], int(f[3]), gen.get(f[1])))
@@ -409,6 +447,10 @@ def oracle(lines, outs):
                     viol.append((f"version pushed to {c} for key {k} does not increase: {tracked[(c, k)]} then {v}",
                                  {"kind": "version-not-increasing", "delta": kind == "D"}, i))
                 tracked[(c, k)] = v
+                if not cdelta.get(c, False) and (kind == "D" or res == "!escaped"):
+                    viol.append((f"connection {c} whose subscription did not negotiate delta got a {'delta' if kind == 'D' else 'JSON-string-escaped'} push for key {k} v{v}",
+                                 {"kind": "delta-on-plain-subscription"}, i))
+                    continue
                 if res.startswith("!") and (c, k) in broken:
                     continue        # consequence of an earlier failed patch: the bytes held are already undefined
                 if res.startswith("!"):
